@@ -205,7 +205,7 @@ class Repo:
 # ---------------------------------------------------------------------- CFG
 
 class Node:
-    __slots__ = ("id", "kind", "ast", "succ", "pred", "trys")
+    __slots__ = ("id", "kind", "ast", "succ", "pred", "trys", "cond")
 
     def __init__(self, i, kind, a):
         self.id = i
@@ -214,6 +214,7 @@ class Node:
         self.succ = []        # (node, label)
         self.pred = []
         self.trys = ()
+        self.cond = None
 
     @property
     def line(self):
